@@ -1,6 +1,7 @@
 import GoSQLXModel.Model.PosCache
 import GoSQLXModel.Model.LexGen
 import GoSQLXModel.Proofs.LexEOF
+import GoSQLXModel.Proofs.LexCount
 /-!
 # C20 — Processing cost grows near-linearly with input size
 
@@ -12,6 +13,8 @@ What is proved (every classifier, table, input):
 * `main_loop_iterations` — the tokenizer's main loop runs at most `n + 1` times, because every reader consumes at
   least one byte (`nextToken_progress`) and nothing is consumed twice (the readers hand back a suffix of what they
   were given): the work of the loop is linear plus the work of the readers, each of which scans what it consumes once;
+* `tokens_at_most_bytes` (Proofs/LexCount.lean) — an accepted run returns at most one token per input byte plus the
+  end marker, so everything downstream that is linear in the token count is linear in `n`;
 * `advanceTo_spec`, `runQueries_cost` — the resuming offset → (line, column) conversion is invisible (it computes
   `locOf`) and a non-decreasing sequence of queries — the tokenizer asks for start, end, start, … in source order
   (`tokenize_spans`) — scans each byte at most once: total at most `n`, whatever the number of tokens, lines or
@@ -29,6 +32,11 @@ theorem main_loop_iterations (cls : CharClass) (inp : Bytes) :
   lexLoop_total cls genLexTables inp _ _ _ _ (by omega)
 
 /-- the number of tokens never exceeds the number of bytes (plus the end marker) -/
+theorem tokens_at_most_bytes (cls : CharClass) (inp : Bytes) (out : List Tok) (cms : List Comment)
+    (h : tokenize cls genLexTables inp = .ok out cms) : out.length ≤ inp.length + 1 :=
+  tokens_le_bytes cls genLexTables inp out cms h
+
+/-- the resuming offset → position conversion computes what the from-scratch one computes -/
 theorem cache_invisible (inp : Bytes) (p : PC) (target : Nat) (hp : p.Ok inp) (h1 : p.idx ≤ target)
     (h2 : target ≤ inp.length) : (advanceTo inp p target).Ok inp ∧ (advanceTo inp p target).idx = target :=
   advanceTo_spec inp p target hp h1 h2
